@@ -9,6 +9,7 @@ pub mod c06;
 pub mod c07;
 pub mod c08;
 pub mod c09;
+pub mod c10;
 pub mod c11;
 pub mod c16;
 pub mod c17;
@@ -23,6 +24,7 @@ pub fn run(ctx: &Ctx) -> Option<PropReport> {
         "C07" => c07::run(ctx),
         "C08" => c08::run(ctx),
         "C09" => c09::run(ctx),
+        "C10" => c10::run(ctx),
         "C11" => c11::run(ctx),
         "C16" => c16::run(ctx),
         "C17" => c17::run(ctx),
@@ -40,6 +42,7 @@ pub fn replay(ctx: &Ctx, sub: &str, case: &Value) -> Result<(), Fail> {
         "C07" => c07::replay(ctx, sub, case),
         "C08" => c08::replay(ctx, sub, case),
         "C09" => c09::replay(ctx, sub, case),
+        "C10" => c10::replay(ctx, sub, case),
         "C11" => c11::replay(ctx, sub, case),
         "C16" => c16::replay(ctx, sub, case),
         "C17" => c17::replay(ctx, sub, case),
